@@ -307,7 +307,33 @@ func runC09Stress(k int, rng *Rng) CaseResult {
 	select {
 	case <-done:
 		finished = true
-	case <-time.After(60 * time.Second):
+	case <-time.After(10 * time.Second):
+		// not finished after 10 s (the workload normally takes milliseconds):
+		// is one acquisition of a write lock being held over a whole further
+		// window while the process burns CPU? Then a call spins under the
+		// lock: decided by CPU time and monitor state, like M10's hang rule.
+		holders0, cpu0 := lockmonWriteHolders(), cpuTime()
+		select {
+		case <-done:
+			finished = true
+		case <-time.After(20 * time.Second):
+			holders1, cpu1 := lockmonWriteHolders(), cpuTime()
+			same := ""
+			for _, h := range holders0 {
+				for _, h2 := range holders1 {
+					if h == h2 {
+						same = h
+					}
+				}
+			}
+			if same != "" && cpu1-cpu0 > 12*time.Second {
+				site := same
+				if i := strings.LastIndex(same, "/"); i >= 0 {
+					site = same[i+1:]
+				}
+				w.fail("busy-loop-under-lock", "stress", site, fmt.Sprintf("the write lock acquisition %s has been held for a whole 20 s window during which the process burnt %v of CPU, while %d calls wait: a call spins while holding the handle lock", same, cpu1-cpu0, nReaders+nWriters))
+			}
+		}
 	}
 	w.takeLockViolations("stress")
 	lockmon.mu.Lock()
@@ -329,7 +355,7 @@ func runC09Stress(k int, rng *Rng) CaseResult {
 	res := w.finish([]string{"stress", strings.Join(fp, "")}, finished && opsDone > 20, nil)
 	if !finished {
 		if len(res.Violations) == 0 {
-			res.Inconclusive = fmt.Sprintf("bounded workload did not finish in 60 s (%d ops done) and the lock monitor saw no cycle", opsDone)
+			res.Inconclusive = fmt.Sprintf("bounded workload did not finish in 30 s (%d ops done) and the lock monitor saw no cycle", opsDone)
 		}
 		res.Type, res.Prop, res.Case = "case", "C09", k
 		if len(res.Violations) > 0 {
